@@ -13,16 +13,22 @@ let run (path : string) =
   let cases = ref 0 and steps = ref 0 and nontrivial = ref 0 in
   let exercised : (string, unit) Hashtbl.t = Hashtbl.create 64 in
   let owner_ok_seen : (string, unit) Hashtbl.t = Hashtbl.create 64 in
+  let other_owner_seen : (string, unit) Hashtbl.t = Hashtbl.create 64 in
+  let collide_seen : (string, unit) Hashtbl.t = Hashtbl.create 64 in
+  let focused = ref false in
   L.iter (fun line ->
       match tokens line with
-      | "case" :: id :: "pos" :: handler :: names :: si :: nok :: owner_cls :: cls :: kind :: changed :: [] ->
+      | "case" :: id :: "pos" :: handler :: names :: si :: nok :: owner_cls :: cls :: kind :: changed :: oi :: has_pos :: coll :: vchanged :: [] ->
         incr cases; incr steps;
         let h = coq_of_string handler in
         let is_owner = (si = "0") and ok = (cls = "ok") and changed = bool_of_tok changed in
-        bump ("pos:" ^ (if is_owner then "owner" else "nonowner") ^ ":" ^ cls ^ ":" ^ kind);
-        Hashtbl.replace distinct (Digest.string (handler ^ si ^ nok ^ cls)) ();
+        let has_pos = bool_of_tok has_pos and coll = bool_of_tok coll and vchanged = bool_of_tok vchanged in
+        bump ("pos:" ^ (if is_owner then "owner" else if coll then "nonowner-same-id-other-kind" else if has_pos then "nonowner-other-owner" else "nonowner") ^ ":" ^ cls ^ ":" ^ kind);
+        Hashtbl.replace distinct (Digest.string (handler ^ oi ^ si ^ nok ^ cls)) ();
         Hashtbl.replace exercised handler ();
         if is_owner && ok then Hashtbl.replace owner_ok_seen handler ();
+        if (not is_owner) && has_pos then Hashtbl.replace other_owner_seen handler ();
+        if (not is_owner) && coll then Hashtbl.replace collide_seen handler ();
         if not (handler_known h) then
           mismatch ~case:id ~step:1 ~field:("handler-row:" ^ handler) ~model:"absent" ~impl:"present"
         else begin
@@ -45,9 +51,10 @@ let run (path : string) =
           if (not is_owner) && handler_position_msg h then incr nontrivial
         end;
         if cls = "panic" then bump ("pos:panic:" ^ handler);
-        if not (holds_C12_owner h is_owner ok changed) then
+        if not (holds_C12_owner h is_owner has_pos ok changed vchanged) then
           predfail ~case:id ~step:1 ~pred:"holds_C12_owner" ~kf:"none"
-            ~detail:(Printf.sprintf "%s_signer=%s_cls=%s_changed=%s" handler si cls (tok_of_bool changed))
+            ~detail:(Printf.sprintf "%s_owner=%s_signer=%s_cls=%s_changed=%s_victim_changed=%s_signer_owns_same_id_of_other_kind=%s" handler oi si cls
+                       (tok_of_bool changed) (tok_of_bool vchanged) (tok_of_bool coll))
       | "case" :: id :: "wasm" :: variant :: chain :: sender :: accepted :: cls :: changed :: [] ->
         incr cases; incr steps;
         let accepted = bool_of_tok accepted and changed = bool_of_tok changed in
@@ -77,19 +84,30 @@ let run (path : string) =
         if not (holds_C12_kill is_admin ok changed) then
           predfail ~case:id ~step:1 ~pred:"holds_C12_kill" ~kf:"none"
             ~detail:(Printf.sprintf "admin=%s_enable=%s_cls=%s" (tok_of_bool is_admin) enable cls)
+      | "#" :: "focus" :: _ -> focused := true
       | [] -> ()
       | _ -> ()
     ) lines;
   (* coverage: every position message of the regenerated table was exercised, and the owner's
      run succeeded at least once (otherwise "non-owner rejected" would be vacuous) *)
-  if Sys.getenv_opt "VERIF_CASE" = None && !cases > 100 then
+  if Sys.getenv_opt "VERIF_CASE" = None && !cases > 100 && not !focused then
     L.iter (fun hn ->
         let n = string_of_coq hn in
         if not (Hashtbl.mem exercised n) then
           mismatch ~case:"-" ~step:0 ~field:("coverage:" ^ n) ~model:"position-message-in-table" ~impl:"not-exercised"
         else if not (Hashtbl.mem owner_ok_seen n) then
-          mismatch ~case:"-" ~step:0 ~field:("coverage-owner-ok:" ^ n) ~model:"owner-succeeds" ~impl:"never")
+          mismatch ~case:"-" ~step:0 ~field:("coverage-owner-ok:" ^ n) ~model:"owner-succeeds" ~impl:"never"
+        else if not (Hashtbl.mem other_owner_seen n) then
+          mismatch ~case:"-" ~step:0 ~field:("coverage-other-owner:" ^ n) ~model:"signed-by-another-position-owner" ~impl:"never"
+        else if (not (handler_signer_keyed hn)) && not (Hashtbl.mem collide_seen n) then
+          (* misaligned ids: a signer owning a position of another kind with the same numeric id *)
+          mismatch ~case:"-" ~step:0 ~field:("coverage-misaligned-ids:" ^ n) ~model:"signer-owns-same-id-of-another-kind" ~impl:"never")
       position_handler_names;
   finish ~cases:!cases ~steps:!steps ~nontrivial:!nontrivial
 
+(* runner C12-focus <ignored>: the position handlers whose regenerated row fails the C12 owner check *)
+let focus (_ : string) =
+  L.iter (fun n -> print_endline ("FOCUS " ^ string_of_coq n)) c12_broken_rows
+
 let () = Conv.register "C12" run
+let () = Conv.register "C12-focus" focus
